@@ -35,7 +35,34 @@ def restore_stage(V):
                              "what": "after a restore from seed the next child index %s of account %d is not beyond path %s found on chain"
                                      % (child.get(d["key"][0], 0), d["key"][0], d["key"]), "row": r})
                 break
-    return {"restores_checked": n, "restores_with_reusable_path": bad}
+    # "across restarts and crashes": the restore itself interrupted at every persistent-effect
+    # boundary of the scan (and with each write failing in turn), then run again (c06 harness)
+    (binc,) = vlib.build_harness(["c06"])
+
+    def crash_one(sh):
+        out = os.path.join(wd, "c06_restore_%d.jsonl" % sh)
+        rc, log = vlib.sh([binc, "--out", out, "--n", "1", "--shard", str(sh), "--only-restore", "1"], timeout=3000)
+        if rc != 0:
+            raise vlib.Infra("c06 harness (interrupted restore) failed: " + log[-2000:])
+        return [json.loads(l) for l in open(out)]
+    crows = []
+    with ThreadPoolExecutor(max_workers=6) as ex:
+        for r in ex.map(crash_one, range(6)):
+            crows.extend(r)
+    n_states, n_bad = 0, 0
+    for r in crows:
+        for c in r["crash"] + r["fault"]:
+            n_states += 1
+            if c["fails"]:
+                n_bad += 1
+                if n_bad <= 2:
+                    V.violation({"property": "C15", "kind": "oracle",
+                                 "what": "restore from seed interrupted (%s), then scanned again: %s"
+                                         % ("crash after effect %s (%s)" % (c["k"], c["event"]) if "event" in c
+                                            else "write %s failed" % c["k"], c["fails"]),
+                                 "events": r["events"], "crash_state": {k: v for k, v in c.items() if k != "snap"}})
+    return {"restores_checked": n, "restores_with_reusable_path": bad,
+            "interrupted_restore_states": n_states, "interrupted_restore_states_failing": n_bad}
 
 
 def run(tier, replay):
